@@ -637,37 +637,23 @@ func obsRanges(ssps []mp4.SubSamplePattern, class string) string {
 	return "ok:" + rangesString(ssps)
 }
 
+// cryptCenc / cryptCbcs: the direct in-place calls, on an exact copy (the observable) and on a guarded sub-slice (hygiene.go)
 func cryptCenc(sample, key, iv []byte, ssps []mp4.SubSamplePattern) string {
-	buf := hx.Exact(sample)
-	var err error
-	p := hx.Try(func() { err = mp4.CryptSampleCenc(buf, key, iv, ssps) })
-	if p != "" {
-		return "panic"
-	}
-	if err != nil {
-		return "err"
-	}
-	return "ok:" + hx.Hex(buf)
+	return cryptGuarded("mp4.CryptSampleCenc", sample, key, iv, func(buf, k, v []byte) error {
+		return mp4.CryptSampleCenc(buf, k, v, ssps)
+	})
 }
 
 func cryptCbcs(dec bool, sample, key, iv []byte, ssps []mp4.SubSamplePattern, cb, sb int) string {
-	buf := hx.Exact(sample)
 	tenc := &mp4.TencBox{DefaultCryptByteBlock: byte(cb), DefaultSkipByteBlock: byte(sb)}
-	var err error
-	p := hx.Try(func() {
-		if dec {
-			err = mp4.DecryptSampleCbcs(buf, key, iv, ssps, tenc)
-		} else {
-			err = mp4.EncryptSampleCbcs(buf, key, iv, ssps, tenc)
-		}
+	if dec {
+		return cryptGuarded("mp4.DecryptSampleCbcs", sample, key, iv, func(buf, k, v []byte) error {
+			return mp4.DecryptSampleCbcs(buf, k, v, ssps, tenc)
+		})
+	}
+	return cryptGuarded("mp4.EncryptSampleCbcs", sample, key, iv, func(buf, k, v []byte) error {
+		return mp4.EncryptSampleCbcs(buf, k, v, ssps, tenc)
 	})
-	if p != "" {
-		return "panic"
-	}
-	if err != nil {
-		return "err"
-	}
-	return "ok:" + hx.Hex(buf)
 }
 
 type fragOpts struct {
@@ -773,7 +759,15 @@ func (e *env) runFragment(codec byte, scheme string, key, iv []byte, samples [][
 	must(err)
 	res.init = initF
 	kid, _ := mp4.NewUUIDFromString(kidHex)
-	ipd, err := mp4.InitProtect(initF.Init, key, iv, scheme, kid, nil)
+	// hygiene.go classes 1 and 2: private copies of key / iv / kid, checked and overwritten right after the call
+	keyA, ivA, kidA := owned(key), owned(iv), owned(kid)
+	ipd, err := mp4.InitProtect(initF.Init, keyA, ivA, scheme, mp4.UUID(kidA), nil)
+	if !ownedIntact(keyA, key) || !ownedIntact(ivA, iv) || !ownedIntact(kidA, kid) {
+		hygFail("mp4.InitProtect", "writes-into-argument", "InitProtect changed its key, iv or kid argument (or the bytes behind it)")
+	}
+	scribbleBytes(keyA)
+	scribbleBytes(ivA)
+	scribbleBytes(kidA)
 	if err != nil {
 		res.class = "err"
 		res.obs = "err"
@@ -800,7 +794,17 @@ func (e *env) runFragment(codec byte, scheme string, key, iv []byte, samples [][
 	frag := buildFragment(res.trackID, samples, o, r)
 	res.frag = frag
 	res.opts = o
-	p := hx.Try(func() { err = mp4.EncryptFragment(frag, key, iv, ipd) })
+	mdatWhole, mdatLen := guardMdat(frag)
+	keyB, ivB := ownedShared(0, key), ownedShared(1, iv)
+	p := hx.Try(func() { err = mp4.EncryptFragment(frag, keyB, ivB, ipd) })
+	if !ownedIntact(keyB, key) || !ownedIntact(ivB, iv) {
+		hygFail("mp4.EncryptFragment", "writes-into-argument", "EncryptFragment changed its key or iv argument (or the bytes behind it)")
+	}
+	if !guardsAround(mdatWhole, mdatLen) {
+		hygFail("mp4.EncryptFragment", "writes-beyond-sample", "EncryptFragment changed bytes in front of or behind the media data (the mdat payload was a sub-slice of a larger buffer)")
+	}
+	scribbleBytes(keyB)
+	scribbleBytes(ivB)
 	if p != "" {
 		res.class, res.obs = "panic", "panic"
 		return res
@@ -1628,6 +1632,7 @@ func search(e *env, seed uint64, n int, big int) {
 		fr := e.runFragment(codec, scheme, key, ivIn, samples, o, r)
 		evals++
 		wit := fmt.Sprintf("codec=%c scheme=%s key=%s iv=%s opts=%+v samples=%s", codec, scheme, hx.Hex(key), hx.Hex(ivIn), o, samplesField(samples))
+		flushHyg(wit)
 		if fr.class != "ok" {
 			fail("mp4.EncryptFragment", "encrypt-"+fr.class, wit, "EncryptFragment does not succeed on a well-formed clear fragment")
 			continue
@@ -1660,6 +1665,7 @@ func search(e *env, seed uint64, n int, big int) {
 		}
 		checkFragment(e, fr, prefix, codec, scheme, key, ivIn, samples, naluLists, hdrLists, wit)
 	}
+	searchDirect(hx.NewRng(seed^0xd17ec7), n)
 	fmt.Fprintf(out, "NOTE\tmulti_fragment_prefixes\t%d\n", multiFrag)
 	fmt.Fprintf(out, "NOTE\tsamples_with_shape_oracle\t%d\n", maskChecked)
 	fmt.Fprintf(out, "NOTE\tsynthetic_hevc_fragments\t%d\n", synthFrags)
@@ -1727,6 +1733,7 @@ func checkFragment(e *env, fr fragResult, prefix []fragResult, codec byte, schem
 		fail("mp4.DecodeFile", "decode-encrypted", wit, "encoded encrypted fragment does not decode")
 		return
 	}
+	checkTenc(dec, scheme, ivIn, wit)
 	dfrag := dec.Segments[0].Fragments[len(prefix)]
 	traf := dfrag.Moof.Traf
 	if traf.Senc == nil || traf.Saiz == nil || traf.Saio == nil {
